@@ -754,6 +754,8 @@ class OpGen:
                 if getattr(anyu0, 'pymods', False):
                     for _ in range(2):
                         ops.append(('rack', fv, 'mid', 'equip', 0, 'mm', rnd.choice(anyu0.types['mm_py']), 3, 28668))
+                    # a module that carries an autocharge, below the state its autocharge's effects need
+                    ops.append(('rack', fv, 'high', 'equip', 0, 'mh', rnd.choice([9111, 9112]), rnd.choice([1, 2]), None))
             return ops
         if self.p.get('prefill') and self.p.get('proj_bias') and not getattr(self, '_pretargeted', False):
             # ... and every prefilled projector aims at a ship of another fit
